@@ -209,7 +209,7 @@ REGISTRY = {
     ),
     "C08": dict(
         jobs=lambda tier, seed: __import__("vf.props.nof", fromlist=["x"]).configs(tier),
-        job_of_config=_job_of("vf.props.nof", "c08"),
+        job_of_config=lambda cfg: ("vf.props.nof", "c08_cancellation" if cfg.get("_job") == "cancellation" else "c08"),
         technique="operator words over boson / fermion / spin / ladder alphabets are enumerated; the real NumberOrderedForm.from_expr, *, +, -, **, adjoint and as_expr run on them; "
         "both sides are denoted by one independent evaluator (action on a Fock state with SYMBOLIC boson/ladder occupations and symbolic scalar coefficients, binary occupations case-split, Jordan-Wigner signs) "
         "and z3 decides action(library result) != action(original word(s)); sat models are replayed in a truncated matrix representation",
